@@ -39,6 +39,7 @@ from pySDC.implementations.sweeper_classes.imex_1st_order_MPI import imex_1st_or
 from pySDC.implementations.transfer_classes.TransferMesh_NoCoarse import mesh_to_mesh as nocoarse
 from pySDC.implementations.hooks.log_solution import LogSolution
 from pySDC.implementations.hooks.log_step_size import LogStepSize
+from pySDC.implementations.hooks.log_embedded_error_estimate import LogEmbeddedErrorEstimate
 from pySDC.implementations.convergence_controller_classes.basic_restarting import BasicRestartingNonMPI, BasicRestartingMPI
 from pySDC.implementations.convergence_controller_classes.adaptivity import Adaptivity
 from pySDC.implementations.transfer_classes.BaseTransferMPI import base_transfer_MPI
@@ -138,6 +139,40 @@ def prop_selftest(case, r):
 
         res = w.run(prog)
         r.check(any(v[0] == 'buffer-modified-before-send-completed' for v in w.violations), 'selftest-race-not-detected', f'{w.violations}')
+    elif kind == 'racy-buffer-unwaited':
+        def prog(rank, comm):
+            if rank == 0:
+                buf = np.array([1.0])
+                comm.Issend(buf, dest=1, tag=5)  # the request is dropped, as in a 'send and forget'
+                buf[0] = 2.0  # illegal: a synchronous send cannot have completed before the receive is posted
+                comm.Barrier()
+            elif rank == 1:
+                comm.Barrier()
+                out = np.zeros(1)
+                comm.Recv(out, source=0, tag=5)
+            else:
+                comm.Barrier()
+
+        w.run(prog)
+        r.check(any(v[0] == 'buffer-modified-before-send-completed' for v in w.violations), 'selftest-unwaited-race-not-detected', f'{w.violations}')
+    elif kind == 'legal-buffer-reuse':
+        def prog(rank, comm):
+            if rank == 0:
+                buf = np.array([1.0])
+                for i in range(3):
+                    req = comm.Issend(buf, dest=1, tag=5)
+                    req.Wait()
+                    buf[0] += 1.0  # legal: the send has completed
+            elif rank == 1:
+                out = np.zeros(1)
+                got = []
+                for i in range(3):
+                    comm.Recv(out, source=0, tag=5)
+                    got.append(float(out[0]))
+                return got
+
+        res = w.run(prog)
+        r.check(w.abort is None and not w.violations and res[1] == [1.0, 2.0, 3.0], 'selftest-legal-reuse-flagged', f'{res} {w.abort} {w.violations}')
     elif kind == 'mismatched-collective':
         def prog(rank, comm):
             if rank == 0:
@@ -159,7 +194,7 @@ def prop_selftest(case, r):
 
 def selftest_enum(tier):
     out = []
-    for kind in ['ring', 'pingpong', 'collectives', 'deadlock', 'ssend-cycle', 'racy-buffer', 'mismatched-collective', 'unmatched-recv']:
+    for kind in ['ring', 'pingpong', 'collectives', 'deadlock', 'ssend-cycle', 'racy-buffer', 'racy-buffer-unwaited', 'legal-buffer-reuse', 'mismatched-collective', 'unmatched-recv']:
         for n in (2, 3, 4):
             for seed in range(6):
                 dec = [(seed * 7 + 3 * i) % 5 for i in range(seed * 4)]
@@ -177,7 +212,7 @@ def time_description(case, mpi):
     cc = {}
     if case.get('script'):
         cc[R.Inject] = {'script': case['script']}
-        cc[BasicRestartingMPI if mpi else BasicRestartingNonMPI] = {'max_restarts': 2, 'crash_after_max_restarts': False}
+        cc[BasicRestartingMPI if mpi else BasicRestartingNonMPI] = {'max_restarts': 2, 'crash_after_max_restarts': False, 'restart_from_first_step': bool(case.get('from_first'))}
     if case.get('adapt'):
         cc[Adaptivity] = {'e_tol': case['adapt']['e_tol'], 'embedded_error_flavor': case['adapt']['flavor'], 'dt_min': case['dt'] / 8}
         cc[BasicRestartingMPI if mpi else BasicRestartingNonMPI] = {'max_restarts': 3, 'crash_after_max_restarts': False}
@@ -187,68 +222,92 @@ def time_description(case, mpi):
     }  # fmt: skip
     if levels > 1:
         desc['space_transfer_class'] = nocoarse
-    cparams = F.quiet_controller_params(hook_class=[LogSolution, LogStepSize], mssdc_jac=case['jac'], all_to_done=case['all_to_done'], predict_type=case['predict'] if levels > 1 else None)
+    cparams = F.quiet_controller_params(hook_class=[LogSolution, LogStepSize, LogEmbeddedErrorEstimate] if case.get('adapt') else [LogSolution, LogStepSize], mssdc_jac=case['jac'], all_to_done=case['all_to_done'], predict_type=case['predict'] if levels > 1 else None)
     return desc, cparams
+
+
+TYPES = ('niter', 'residual_post_step', 'restart', 'dt', 'u')
 
 
 def summarize(stats_list):
     merged = {}
     for s in stats_list:
         if s:
-            merged.update(s)
-    # several attempts may share a time (restarts), and serial / MPI times may differ in the last bits: cluster the times first,
-    # then order by (time cluster, restart count, slot)
-    merged = {k: v for k, v in merged.items() if k.time is not None}
-    times = sorted({float(k.time) for k in merged})
-    cluster = {}
-    cid = -1
-    last = None
-    for t in times:
-        if last is None or t - last > 1e-9 * max(1.0, abs(t)):
-            cid += 1
-        cluster[t] = cid
-        last = t
-    out = {}
-    for typ in ('niter', 'residual_post_step', 'restart', 'dt', 'u'):
-        lst = sorted([(k, v) for k, v in merged.items() if k.type == typ], key=lambda kv: (cluster[float(kv[0].time)], int(kv[0].num_restarts or 0), int(kv[0].process if kv[0].process is not None else -1)))
-        out[typ] = [(float(k.time), np.asarray(v, dtype=complex).ravel() if typ == 'u' else v) for k, v in lst]
-    return out
+            merged.update({k: v for k, v in s.items() if k.type in TYPES and k.time is not None})
+    return merged
+
+
+def amplification(case, *stats):
+    """error-based step-size control computes dt_new from e_tol / e_est where e_est is a difference of iterates: rounding differences between
+    the serial and the MPI run (summation order, chained vs summed step times) are amplified by ~ 1 / min(e_est)"""
+    if not case.get('adapt'):
+        return 1.0
+    est = [abs(v) for s in stats for st_ in (s if isinstance(s, list) else [s]) if st_ for k, v in st_.items() if k.type.startswith('error_embedded_estimate') and v is not None]
+    est = [e for e in est if e > 0]
+    return 1.0 / min(est) if est else 1e16
+
+
+def _same(typ, v1, v2, rtol, amp):
+    if typ in ('niter', 'restart'):
+        return v1 == v2
+    if typ == 'u':
+        v1, v2 = np.asarray(v1, dtype=complex).ravel(), np.asarray(v2, dtype=complex).ravel()
+        return v1.shape == v2.shape and np.abs(v1 - v2).max() <= rtol * max(1.0, np.abs(v1).max())
+    if v1 is None or v2 is None:
+        return v1 is v2
+    return abs(v1 - v2) <= rtol * max(abs(v1), abs(v2)) + 1e-15 * amp
 
 
 def compare_runs(r, ser, par, P, what, amp=1.0):
-    """amp: factor by which rounding differences may be amplified (error-based step-size control divides by a difference of iterates)"""
+    """Records are grouped by (type, time cluster, restart count, slot): serial and MPI times may differ in the last bits, and attempts
+    whose keys coincide overwrite each other in the statistics (bit-identical times), which may happen in one run and not in the other.
+    Every group must exist on both sides; equally sized groups must agree value by value, otherwise every record of the smaller group
+    must have a partner in the larger one. amp: factor by which rounding differences may be amplified (error-based step-size control
+    divides by a difference of iterates)."""
     eps = np.finfo(float).eps
-    rtol = max(1e-12, 64 * eps * amp)
-    for typ in ('niter', 'restart', 'dt', 'residual_post_step', 'u'):
-        a, b = ser[typ], par[typ]
-        if not r.check(len(a) == len(b), f'{what}-{typ}-count', f'serial logged {len(a)} {typ} records, MPI {len(b)}'):
+    times = sorted({float(k.time) for k in ser} | {float(k.time) for k in par})
+    n = len(times) + 2
+    rtol = max(1e-12, 64 * eps * amp) * n
+    ttol = max(4 * eps, 64 * eps * amp if amp > 1 else 0.0) * n
+    cluster = {}
+    cid, last = -1, None
+    for t in times:
+        if last is None or t - last > ttol * max(1.0, abs(t)):
+            cid += 1
+        cluster[t] = cid
+        last = t
+
+    def groups(m):
+        g = {}
+        for k, v in m.items():
+            g.setdefault((k.type, cluster[float(k.time)], int(k.num_restarts or 0), int(k.process if k.process is not None else -1)), []).append((float(k.time), v))
+        return g
+
+    ga, gb = groups(ser), groups(par)
+    for typ in TYPES:
+        ka = sorted(k for k in ga if k[0] == typ)
+        kb = sorted(k for k in gb if k[0] == typ)
+        if ka != kb:
+            only_a = [k for k in ka if k not in gb][:3]
+            only_b = [k for k in kb if k not in ga][:3]
+            ta = {c: t for t, c in cluster.items()}
+            r.fail(f'{what}-{typ}-records', f'(time, restarts, slot) only serial: {[(ta[k[1]], k[2], k[3]) for k in only_a]}, only MPI: {[(ta[k[1]], k[2], k[3]) for k in only_b]}; {len(ka)} vs {len(kb)} groups')
             continue
-        ta = np.array([t for t, v in a])
-        tb = np.array([t for t, v in b])
-        if len(ta):
-            r.close(np.abs(ta - tb).max(), max(4 * eps, rtol if amp > 1 else 0.0) * (len(ta) + 2) * max(1.0, np.abs(ta).max()), f'{what}-{typ}-times', f'{ta[:6]} vs {tb[:6]}')
-        for (t1, v1), (t2, v2) in zip(a, b):
-            if typ in ('niter', 'restart'):
-                if v1 != v2:
-                    r.fail(f'{what}-{typ}-value', f't={t1!r}: serial {v1!r}, MPI {v2!r}')
-                    break
-            elif typ == 'u':
-                if np.abs(v1 - v2).max() > rtol * (len(ta) + 2) * max(1.0, np.abs(v1).max()):
-                    r.fail(f'{what}-u-value', f't={t1!r}: differs by {np.abs(v1 - v2).max():.3e}')
-                    break
-            else:
-                if v1 is None or v2 is None:
-                    if v1 is not v2:
-                        r.fail(f'{what}-{typ}-value', f't={t1!r}: {v1!r} vs {v2!r}')
-                        break
-                elif abs(v1 - v2) > rtol * (len(ta) + 2) * max(abs(v1), abs(v2)) + 1e-15 * amp:
-                    r.fail(f'{what}-{typ}-value', f't={t1!r}: serial {v1!r}, MPI {v2!r}')
-                    break
+        for k in ka:
+            A, B = ga[k], gb[k]
+            small, large = (A, B) if len(A) <= len(B) else (B, A)
+            ok = all(any(_same(typ, v1, v2, rtol, amp) for t2, v2 in large) for t1, v1 in small)
+            if len(A) == len(B) == 1:
+                ok = _same(typ, A[0][1], B[0][1], rtol, amp)
+            if not ok:
+                show = (lambda v: f'{np.asarray(v).ravel()[:3]}') if typ == 'u' else repr
+                r.fail(f'{what}-{typ}-value', f't={A[0][0]!r} restarts={k[2]} slot={k[3]}: serial {[show(v) for t, v in A]}, MPI {[show(v) for t, v in B]}')
+                break
 
 
 def prop_time(case, r):
     P = case['ranks']
-    r.label(f'ranks{P}', f'levels{case["levels"]}', f'predict={case["predict"]}', 'jacobi' if case['jac'] else 'gauss-seidel', 'scripted-restarts' if case.get('script') else ('adaptivity-' + case['adapt']['flavor'] if case.get('adapt') else 'plain'))
+    r.label(f'ranks{P}', f'levels{case["levels"]}', f'predict={case["predict"]}', 'jacobi' if case['jac'] else 'gauss-seidel', ('scripted-restarts-from-first' if case.get('from_first') else 'scripted-restarts') if case.get('script') else ('adaptivity-' + case['adapt']['flavor'] if case.get('adapt') else 'plain'))
     Tend = case['dt'] * case['nsteps'] - 0.3 * case['dt']
     # serial emulation
     desc, cparams = time_description(case, mpi=False)
@@ -280,11 +339,14 @@ def prop_time(case, r):
         r.fail('mpi-run-aborted', str(world.abort)[:400])
         return
     par = summarize([x[1] for x in res if x is not None])
-    compare_runs(r, ser, par, P, 'time', amp=1.0 / case['adapt']['e_tol'] if case.get('adapt') else 1.0)
+    amp = amplification(case, stats_s, [x[1] for x in res if x is not None])
+    if amp * 64 * np.finfo(float).eps * (len(ser) + 2) > 1e-4:
+        r.discard('adaptive run with an error estimate so small that rounding decides the step size')
+        return
+    compare_runs(r, ser, par, P, 'time', amp=amp)
     # value returned on every rank that takes part in the last block
-    nsteps_acc = len([1 for t, v in ser['u']])
-    starts = sorted({t for t, v in ser['dt']})
-    last_block_size = ((len(ser['niter']) - 1) % P) + 1 if not (case.get('script') or case.get('adapt')) else None
+    n_niter = len([k for k in ser if k.type == 'niter'])
+    last_block_size = ((n_niter - 1) % P) + 1 if not (case.get('script') or case.get('adapt')) else None
     if last_block_size is not None:
         for rank in range(last_block_size):
             ue = res[rank][0]
@@ -293,7 +355,7 @@ def prop_time(case, r):
 
 @st.composite
 def time_cases(draw, max_ranks=4):
-    P = draw(st.integers(1, max_ranks))
+    P = draw(st.sampled_from([1] + 2 * list(range(2, max_ranks + 1))))
     levels = draw(st.sampled_from([1, 1, 2, 2, 3]))
     n = draw(st.integers(1, 2))
     nblocks = draw(st.integers(1, 3))
@@ -316,6 +378,7 @@ def time_cases(draw, max_ranks=4):
                 e['dt_new'] = float(case['dt'] * draw(st.sampled_from([0.5, 2.0, 0.75])))
             script.append(e)
         case['script'] = script
+        case['from_first'] = draw(st.integers(0, 3)) == 0
     elif draw(st.integers(0, 3)) == 0:
         case['adapt'] = {'e_tol': draw(st.sampled_from([1e-2, 1e-4, 1e-6])), 'flavor': draw(st.sampled_from(['standard', 'standard', 'linearized']))}
         case['restol'] = -1.0
@@ -336,25 +399,37 @@ def prop_nodes(case, r):
     n = case['n']
     A = np.array(S.shape_matrix(case['B'], 'stable'))
     A2 = 0.3 * np.array(S.shape_matrix(case['B2'], 'rot'))
-    r.label(sw, case['residual_type'], 'coll-update' if case['coll_update'] else 'last-node', f'ranks{M}')
+    r.label(sw, case['residual_type'], 'coll-update' if case['coll_update'] else 'last-node', f'ranks{M}', f'levels{case.get("levels", 1)}', 'adaptivity' if case.get('adapt') else 'fixed-dt')
+
+    levels = case.get('levels', 1)
+    per_level = (lambda X: [X, 0.7 * X]) if levels == 2 else (lambda X: X)
 
     def description(comm):
         sp = {'num_nodes': M, 'quad_type': case['quad_type'], 'QI': case['QI'], 'initial_guess': case['initial_guess'], 'do_coll_update': case['coll_update']}
         if sw == 'imex':
-            pc, pp = F.LinVecIMEX, {'AI': A, 'AE': A2, 'gI': case['g'], 'gE': None}
+            pc, pp = F.LinVecIMEX, {'AI': per_level(A), 'AE': per_level(A2), 'gI': case['g'], 'gE': None}
             sc = imex_1st_order_MPI if comm is not None else imex_1st_order
             sp['QE'] = 'PIC'
         else:
-            pc, pp = F.LinVec, {'A': A, 'g': case['g']}
+            pc, pp = F.LinVec, {'A': per_level(A), 'g': case['g']}
             sc = generic_implicit_MPI if comm is not None else generic_implicit
         if comm is not None:
             sp['comm'] = comm
-        return {
-            'problem_class': pc, 'problem_params': pp, 'sweeper_class': sc, 'sweeper_params': sp,
+        cc = {}
+        if case.get('adapt'):
+            cc[Adaptivity] = {'e_tol': case['adapt'], 'dt_min': case['dt'] / 8}
+            cc[BasicRestartingNonMPI] = {'max_restarts': 3, 'crash_after_max_restarts': False}
+        d = {
+            'problem_class': pc, 'problem_params': pp, 'sweeper_class': sc, 'sweeper_params': sp, 'convergence_controllers': cc,
             'level_params': {'dt': case['dt'], 'restol': case['restol'], 'residual_type': case['residual_type']}, 'step_params': {'maxiter': case['maxiter']},
         }  # fmt: skip
+        if levels == 2:
+            d['space_transfer_class'] = nocoarse
+            if comm is not None:
+                d['base_transfer_class'] = base_transfer_MPI
+        return d
 
-    cparams = lambda: F.quiet_controller_params(hook_class=[LogSolution])  # noqa: E731
+    cparams = lambda: F.quiet_controller_params(hook_class=[LogSolution, LogStepSize, LogEmbeddedErrorEstimate] if case.get('adapt') else [LogSolution, LogStepSize], mssdc_jac=False)  # noqa: E731
     Tend = case['dt'] * case['nsteps']
     ctrl = controller_nonMPI(num_procs=1, controller_params=cparams(), description=description(None))
     prob = ctrl.MS[0].levels[0].prob
@@ -374,34 +449,50 @@ def prop_nodes(case, r):
 
     res = world.run(rank_main)
     if M >= 2 and world.stats['preemptions'] >= 1:
-        r.nontrivial([sw, M, case['QI'], case['residual_type'], case['coll_update'], case['nsteps'], case['decisions'][:20], case['seed']])
+        r.nontrivial([sw, M, case['QI'], case['residual_type'], case['coll_update'], case['nsteps'], case.get('levels', 1), case.get('adapt'), case['decisions'][:20], case['seed']])
     for tag, msg in world.violations:
         r.fail(f'mpi-{tag}', msg)
     if world.abort is not None:
         r.fail('mpi-run-aborted', str(world.abort)[:400])
         return
+    amp = amplification(case, stats_s, [x[1] for x in res if x is not None])
+    if amp * 64 * np.finfo(float).eps * (len(ser) + 2) > 1e-4:
+        r.discard('adaptive run with an error estimate so small that rounding decides the step size')
+        return
     for rank in range(M):
         par = summarize([res[rank][1]])
-        compare_runs(r, ser, par, M, 'nodes')
-        r.close(np.abs(res[rank][0] - np.asarray(uend_s)).max(), 1e-12 * max(1.0, np.abs(np.asarray(uend_s)).max()), 'nodes-returned-value', f'rank {rank}')
+        compare_runs(r, ser, par, M, 'nodes', amp=amp)
+        rtol = max(1e-12, 64 * np.finfo(float).eps * amp * (len(ser) + 2))
+        r.close(np.abs(res[rank][0] - np.asarray(uend_s)).max(), rtol * max(1.0, np.abs(np.asarray(uend_s)).max()), 'nodes-returned-value', f'rank {rank}')
 
 
 @st.composite
 def node_cases(draw):
     sw = draw(st.sampled_from(['implicit', 'implicit', 'imex']))
-    M = draw(st.integers(1, 4))
+    M = draw(st.sampled_from([1, 2, 2, 3, 3, 4, 4]))
     n = draw(st.integers(1, 3))
     cu = draw(st.booleans()) if sw == 'implicit' else False
-    return {
+    levels = draw(st.sampled_from([1, 1, 2]))
+    adapt = draw(st.sampled_from([None, None, 1e-3, 1e-5]))
+    case = {
         'sweeper': sw, 'num_nodes': M, 'n': n, 'B': draw(S.mat(n)), 'B2': draw(S.mat(n)), 'g': draw(S.forcing(n)), 'u0': draw(S.vec(n, 0.2, 2.0)),
         'quad_type': 'RADAU-RIGHT', 'QI': draw(st.sampled_from(['MIN-SR-S', 'MIN-SR-NS', 'IEpar', 'MIN-SR-FLEX', 'Qpar'])), 'initial_guess': draw(st.sampled_from(['spread', 'copy', 'zero'])),
         'coll_update': cu, 'residual_type': draw(st.sampled_from(['full_abs', 'last_abs', 'full_rel', 'last_rel'])), 'restol': draw(st.sampled_from([-1.0, 1e-8])),
         'maxiter': draw(st.integers(1, 5)), 'dt': draw(st.sampled_from([0.1, 0.25])), 'nsteps': draw(st.integers(1, 3)), 'decisions': draw(st.lists(st.integers(0, 7), max_size=80)),
-        'seed': draw(st.integers(0, 1000)), 'policy': draw(st.sampled_from(['random', 'fifo'])),
+        'seed': draw(st.integers(0, 1000)), 'policy': draw(st.sampled_from(['random', 'fifo'])), 'levels': levels, 'adapt': adapt,
     }  # fmt: skip
+    if adapt:
+        case['restol'] = -1.0
+        case['maxiter'] = max(2, case['maxiter'])
+        case['levels'] = 1 if M == 1 else case['levels']
+    return case
 
 
 def known_match(fid, clause, case, failure):
+    tag, msg = failure
+    if fid == 'F25' and clause == 'time-parallel' and tag in ('mpi-collective-mismatch', 'mpi-run-aborted'):
+        # mismatched collectives of BasicRestartingMPI(restart_from_first_step=True) when ranks finish in different iterations
+        return bool(case.get('from_first')) and bool(case.get('script')) and not case['all_to_done'] and case['ranks'] >= 2 and ('allgather while others call bcast' in msg or 'bcast while others call allgather' in msg or tag == 'mpi-run-aborted')
     return False
 
 
